@@ -371,3 +371,8 @@ def run(ctx):
                   "descriptor built from the current line", key="R14.5:JsonfileReader.__iter__:descriptor-not-from-line")
     state = [n for n in ast.walk(it) if isinstance(n, (ast.Attribute, ast.Subscript)) and isinstance(n.ctx, ast.Store) and (dotted(n) or dotted(getattr(n, "value", None)) or "").startswith("self.")]
     ctx.check(not state, "R14.5", "JsonfileReader.__iter__:stateless", f"iteration stores reader state ({norm(state[0]) if state else ''})", it, "no state carried between lines")
+
+    # ------------------------------------------------------------------ R14.6 generated code and falsy values
+    from .c05 import check_generated_value_tests
+    check_generated_value_tests(ctx, "R14.6")
+
